@@ -85,6 +85,42 @@ assert np.allclose(np.linalg.eigvalsh((X + X.T) / 2), w0, atol=1e-9 * max(1, abs
 """ % case
 
 
+PROBE_SRC = """
+from renormalizer.mps import Mps
+from renormalizer.utils import CompressConfig
+np.random.seed(0)
+mps = Mps.random(mpo.model, QNTOT, 16, percent=1.0)
+H = np.asarray(mpo.todense()); v = np.asarray(mps.todense()).ravel(); ref = H @ v; tol = 1e-9 * max(1.0, abs(ref).max())
+assert abs(np.asarray(mpo.apply(mps).todense()).ravel() - ref).max() < tol            # Mpo.apply(mps)
+assert abs(np.asarray((mpo @ mps).todense()).ravel() - ref).max() < tol               # mpo @ mps
+mpo2 = Mpo(mpo.model); P = H @ np.asarray(mpo2.todense())
+assert abs(np.asarray(mpo.apply(mpo2).todense()) - P).max() < 1e-9 * max(1.0, abs(P).max())   # Mpo.apply(mpo)
+mps.compress_config = CompressConfig(threshold=1e-13)
+assert abs(ref).max() < 1e-8 or abs(np.asarray(mpo.contract(mps).todense()).ravel() - ref).max() < 1e-7 * max(1.0, abs(ref).max())   # contract
+print("the exchanged operator can be applied")
+"""
+
+
+def repro_probe_swap(case):
+    return repro_swapseq(case, None) + PROBE_SRC.replace("QNTOT", "[1, 1]" if case["qn"] else "0")
+
+
+def repro_probe_fewterm(case, plan, group):
+    return repro_fewterm(case, plan, group) + PROBE_SRC.replace("QNTOT", "[1, 1]" if case["family"] == "qcstack" else "0")
+
+
+def probe_bad(pr):
+    """-> description if the use-after-exchange probe failed"""
+    if pr is None:
+        return None
+    if "raised" in pr:
+        return "raised: " + pr["raised"][-300:]
+    for k, tol in (("apply", TOL), ("matmul", TOL), ("apply_mpo", TOL), ("contract", 1e-7)):
+        if not (pr.get(k, 1.0) <= tol):
+            return "%s deviates from the dense product by %r" % (k, pr.get(k))
+    return None
+
+
 def repro_fewterm(case, plan, group):
     imp = os.path.join(common.VERIF, "harness", "impl")
     ft = open(os.path.join(imp, "c17_fewterm.py")).read()
@@ -486,6 +522,7 @@ def run(ctx):
     sw_payloads = [{"cases": ch} for ch in chunks(swap_cases, 2)]
     sw_res = ctx.impl_par("c17_swap.py", sw_payloads, timeout=1500)
     swap_bad = []          # spectrum / permutation mismatches
+    apply_bad = []         # the exchanged operator cannot be used (apply / @ / contract) or gives a wrong product
     swap_assert = []       # AssertionError inside swap_site (known failure class B)
     swap_single = []       # single-term operator: the fast path of construct_symbolic_mpo stores a differently nested out_ops list
     qc_true_plain = 0
@@ -524,6 +561,11 @@ def run(ctx):
                         qc_true_plain += 1
                     elif st["fermi"] <= TOL:
                         qc_true_fermi += 1
+            if "probe" in c:
+                ev += 4
+                pb = probe_bad(c["probe"])
+                if pb:
+                    apply_bad.append({"what": pb, "case": case, "source": "swap"})
             if "raised" in c:
                 ev += 1
                 if "auxiliary_dummy_primary_ops" in c["raised"].get("where", ""):
@@ -565,6 +607,11 @@ def run(ctx):
                         hit = {"what": "operator after the exchange is not the same operator in the new site order", "case": case,
                                "group": pr["group"], "plan": pr["plan"][:k + 1], "nterms": pr["nterms"], "observed": st}
                         break
+                if "probe" in pr and not hit:
+                    ev += 4
+                    pb = probe_bad(pr["probe"])
+                    if pb:
+                        apply_bad.append({"what": pb, "case": case, "source": "fewterm", "plan": pr["plan"], "group": pr["group"]})
                 if hit:
                     ft_bad.append(hit)
                 elif "raised" in pr:
@@ -686,6 +733,15 @@ Hs = sum(L.term_dense(t, 2 * %(nsp)d) for t in L.flat_terms(terms)); assert abs(
                       "the operator after Mpo.try_swap_site is not the same operator in the new site order (independent kron reference)",
                       {"failures": ft_bad[:6], "n_failures": len(ft_bad)}, found=first is not None,
                       repro=repro_fewterm(first["case"], first["plan"], first["group"]) if first is not None else None)
+    if apply_bad:
+        sw = [x for x in apply_bad if x["source"] == "swap"]
+        first = min(sw, key=lambda x: len(x["case"]["seq"])) if sw else min(apply_bad, key=lambda x: len(x["plan"]))
+        ctx.violation("swap-site-apply-after-swap",
+                      "dense oracle (use after exchange): an operator that went through Mpo.try_swap_site cannot be applied "
+                      "(Mpo.apply(mps) / mpo @ mps / Mpo.apply(mpo) / contract raise or differ from the dense product)",
+                      {"failures": [{k: (v if k != "case" else {kk: vv for kk, vv in v.items() if kk != "plans"}) for k, v in x.items()} for x in apply_bad[:5]],
+                       "n_failures": len(apply_bad)}, found=True,
+                      repro=repro_probe_swap(first["case"]) if first["source"] == "swap" else repro_probe_fewterm(first["case"], first["plan"], first["group"]))
     if swap_single:
         first = swap_single[0]
         ctx.violation("swap-site-single-term",
